@@ -223,9 +223,10 @@ def tail (delim : Bytes) : List Part → Bytes
 /-- the body an RFC 7578 encoder writes for a form, with `delim` = `--` + boundary -/
 def encode (delim : Bytes) (form : List Part) : Bytes := delim ++ tail delim form
 
-/-- the delimiter does not occur in the content (nor straddling its end): the choice a conforming encoder makes -/
+/-- the delimiter — CRLF `--` boundary, RFC 2046 5.1.1 — does not occur in the content (nor straddling its end): the choice a conforming encoder
+makes.  `--` boundary in the middle of a line is content like any other -/
 def Fits (delim : Bytes) (p : Part) (rest : Bytes) : Prop :=
-  ∀ i, i < (content p ++ CRLF).length → delim.isPrefixOf (((content p ++ CRLF) ++ delim ++ rest).drop i) = false
+  ∀ i, i < (content p).length → (CRLF ++ delim).isPrefixOf ((content p ++ (CRLF ++ delim) ++ rest).drop i) = false
 
 def FormOK (delim : Bytes) : List Part → Prop
   | [] => True
@@ -273,15 +274,11 @@ theorem parts_tail (delim : Bytes) : ∀ (form : List Part) (acc : List Part) (f
       obtain ⟨hacc, hh, hname, hkind⟩ := headers_part delim p hp (content p ++ CRLF ++ (delim ++ tail delim ps)) _ hlen
       rw [hh]
       simp only
-      have hru : readUntil delim (content p ++ CRLF ++ (delim ++ tail delim ps)) = (content p ++ CRLF, delim ++ tail delim ps) := by
-        have := C10.readUntil_exact delim (content p ++ CRLF) (tail delim ps) hfit
+      have hru : readUntil (CRLF ++ delim) (content p ++ CRLF ++ (delim ++ tail delim ps)) = (content p, (CRLF ++ delim) ++ tail delim ps) := by
+        have := C10.readUntil_exact (CRLF ++ delim) (content p) (tail delim ps) hfit
         simpa [List.append_assoc] using this
       rw [hru]
-      simp only
-      have hl2 : ¬ ((content p ++ CRLF).length < 2) := by simp [CRLF]
-      have htake : (content p ++ CRLF).take ((content p ++ CRLF).length - 2) = content p := by simp [CRLF]
-      have hdrop : (content p ++ CRLF).drop ((content p ++ CRLF).length - 2) = CRLF := by simp [CRLF]
-      simp only [hl2, if_false, htake, hdrop, bne_self_eq_false, Bool.false_eq_true, consume_app]
+      simp only [consume_app]
       cases p with
       | text n t =>
         simp only at hkind hname
